@@ -523,7 +523,7 @@ class Renderer:
                         if nm in before and nm in e1 and is_int(before[nm]) and is_int(e1[nm]) and e1[nm][1] > before[nm][1]:
                             self.else_reads_widened = True
                 for nm in sorted(set(e1) | set(e2)):
-                    if nm.startswith("const:") or nm.startswith("fn:") or nm == "__ret__":
+                    if nm.startswith(("const:", "fn:", "tconst:")) or nm == "__ret__":
                         continue
                     if nm in before:
                         t = join_types(join_types(before[nm], e1.get(nm, before[nm])), e2.get(nm, before[nm]))
@@ -550,6 +550,10 @@ class Renderer:
                             consts = cvs
                     else:
                         its = [(f"{isrc}[{j}]", et) for j, et in enumerate(elem_types(itt))]
+                        if it[1][0] == "v" and ("tconst:" + it[1][1]) in env:
+                            # iterating over a bound tuple parameter: the elements are compile-time constants
+                            consts = list(env["tconst:" + it[1][1]])
+                            its = [(const_src(c, self.ref), const_type(c)) for c in consts]
                 if not self.ref:
                     out.append(f"{pad}for {var} in {head}:")
                     env_body = dict(env)
@@ -587,7 +591,8 @@ def render(prog, ref=False, extra_env=None):
     if ref:
         lines = [f"def {prog['name']}({', '.join(a[0] for a in prog['args'])}):"]
     else:
-        args = ", ".join(f"{a[0]}: {ann(a[1])}" for a in prog["args"])
+        pset = set(prog.get("params", ()))
+        args = ", ".join(f"{a[0]}: Parameter[{ann(a[1])}]" if a[0] in pset else f"{a[0]}: {ann(a[1])}" for a in prog["args"])
         lines = [f"def {prog['name']}({args}) -> {ann(prog['ret'])}:"]
     r.stmts(prog["body"], env, 1, lines)
     return "\n".join(lines) + "\n", env
@@ -726,7 +731,7 @@ class G:
                     walk(["idx", e, i], et, d + 1)
 
         for n, t in self.env.items():
-            if not n.startswith("fn:") and not n.startswith("const:") and n not in self.hidden:
+            if not n.startswith(("fn:", "const:", "tconst:")) and n not in self.hidden:
                 walk(["v", n], t, 0)
         return out
 
@@ -866,7 +871,7 @@ class G:
 
     def index_expr(self, n):
         """an int expression usable as a variable subscript for a container of n elements (a plain name)"""
-        cands = [p for p in self.paths(is_int) if p[0] == "v"]
+        cands = [p for p in self.paths(is_int) if p[0] == "v" and p[1] not in self.pyint]
         return self.pick(cands) if cands else ["k", 0]
 
     def gen_int(self, d):  # noqa: C901
@@ -1039,7 +1044,7 @@ def _typeof(e, env):
 
 
 @st.composite
-def program(draw, cfg=None, ret=None, name="f", args=None, fns=None):  # noqa: C901
+def program(draw, cfg=None, ret=None, name="f", args=None, fns=None, params=()):  # noqa: C901
     cfg = cfg or Cfg()
     if args is None:
         nargs = draw(st.integers(1, cfg.max_args))
@@ -1056,6 +1061,8 @@ def program(draw, cfg=None, ret=None, name="f", args=None, fns=None):  # noqa: C
     for fn_name, (fts, rt) in (fns or {}).items():
         g.fns[fn_name] = (fts, rt)
         env["fn:" + fn_name] = rt
+    g.pyint.update(params)
+    protected = set(params)
     d = cfg.depth
     loopvars = set()
 
@@ -1066,7 +1073,11 @@ def program(draw, cfg=None, ret=None, name="f", args=None, fns=None):  # noqa: C
         return None
 
     def scalars():
-        return [n for n, t in env.items() if not n.startswith(("fn:", "const:")) and n not in loopvars and (t == BOOL or is_int(t))]
+        return [
+            n
+            for n, t in env.items()
+            if not n.startswith(("fn:", "const:", "tconst:")) and n not in loopvars and n not in protected and (t == BOOL or is_int(t))
+        ]
 
     def simple(depth):
         """assignment / aug-assignment to an existing scalar variable"""
